@@ -328,6 +328,24 @@ def run(index, rep, tier):
         nb = borrow(index, rep, "C07", {"R07.1"}, "R03.11") + borrow(index, rep, "C08", {"R08.3"}, "R03.11") + borrow(index, rep, "C10", {"R10.9"}, "R03.11")
         rep.floor("R03.11", "borrowed obligations", 8, nb)
 
+    # ---- R03.12 taxa are dealt out of a snapshot
+    with rep.section("R03.12"):
+        rep.rule("R03.12", "taxa are dealt out of a snapshot: where a loop of the tree model gives nodes new taxa (`x.taxon = ...`), the value is never read off ANOTHER node visited by the same loop (`y.taxon`, x and y both targets of that loop) - that node may already have been given its new taxon, so one taxon is handed out twice and another is lost (the leaf taxa are no longer a permutation); Tree.shuffle_taxa collects the taxa into a list first and deals from that")
+        n12 = 0
+        for f in index.functions_in_module("dendropy.datamodel.treemodel._tree"):
+            for loop in [l for l in ast.walk(f.node) if isinstance(l, ast.For)]:
+                tnames = {x.id for x in ast.walk(loop.target) if isinstance(x, ast.Name)}
+                for st in ast.walk(loop):
+                    if isinstance(st, ast.Assign) and any(isinstance(t, ast.Attribute) and t.attr == "taxon" and isinstance(t.value, ast.Name) and t.value.id in tnames for t in st.targets):
+                        n12 += 1
+                        tgt = [t for t in st.targets if isinstance(t, ast.Attribute) and t.attr == "taxon"][0]
+                        others = [x for y in loop.body for x in ast.walk(y) if isinstance(x, ast.Attribute) and x.attr == "taxon" and isinstance(x.ctx, ast.Load) and isinstance(x.value, ast.Name) and x.value.id in tnames and x.value.id != tgt.value.id]
+                        rep.check(not others, "R03.12", f.qualname, "taxon read off another node of the same loop", fn_where(f, st), "%s: `%s` deals from a snapshot" % (f.name, norm_stmt(st)[:50]),
+                                  "%s assigns `%s` in a loop that also reads `%s`: both nodes are visited by this loop, so the donor may already carry its NEW taxon - after the loop one taxon sits on several leaves and another on none (shuffle_taxa on `(a,b,c,d)` gave `c,c,c,d`), and the returned old-to-new map is not a bijection" % (f.qualname, norm_stmt(st)[:50], norm(others[0]) if others else ""))
+        if "shuffle_taxa" not in index.klass("dendropy.datamodel.treemodel._tree.Tree").methods:
+            raise AnalysisError("R03.12: Tree.shuffle_taxa is gone")
+        rep.floor("R03.12", "loops that re-assign taxa", 1, n12)
+
 
 def _pairing(rep, fi):
     cfg = cfg_of(fi)
